@@ -59,8 +59,22 @@ def write_replay(pid, name, payload):
         json.dump(payload, f, indent=1)
     return p
 
+def theorems_of(module):
+    """names of the theorems stated in a property file (TB/Props/Cnn.lean holds property theorems only)"""
+    path = os.path.join(C.LEAN, *module.split(".")) + ".lean"
+    try:
+        src = C.strip_comments(open(path).read())
+    except FileNotFoundError:
+        return []
+    return re.findall(r"^theorem\s+([A-Za-z0-9_'.]+)", src, flags=re.M)
+
 def proof_stage(res, module, theorems, tier, extra_targets=("tbmodel",)):
     """(re)build and audit the property's theorems; fills res.obligations/discharged/build_problems"""
+    declared = theorems_of(module)
+    missing = [t for t in theorems if t not in declared]
+    if missing:
+        res.build_problems.append("theorems missing from %s: %s" % (module, ", ".join(missing)))
+    theorems = list(theorems) + [t for t in declared if t not in theorems]
     res.obligations = list(theorems)
     clean = [module] if tier == "thorough" else []
     ok, out = C.lean_build([module] + list(extra_targets), clean_modules=clean)
